@@ -106,6 +106,8 @@ pub unsafe extern "C" fn probe(ptr: *const Tt, len: usize, digest: *mut u8, mode
     // the known `|` weakness of the scanner needs a second `|` to close the pair and a comma in between: without that pattern in
     // the token trees a disagreement is not attributed to it
     if !pipe_comma_pipe(tts) { flags &= !oracle::F_BINARY_PIPE; }
+    // likewise the `<` weakness: a binary `<`, a comma, and a `>` directly followed by `::` (which the scanner takes for a qualified path `<..>::`)
+    if !lt_comma_gt_pathsep(tts) { flags &= !oracle::F_BINARY_LT; }
     let code = compare(g, wn, &got, &want);
     // a disagreement carries the oracle's feature flags of the accepted parse in bits 8.. (used to name known classes)
     if code != 0 { code | (flags as u32) << 8 } else { 0 }
@@ -123,6 +125,27 @@ fn pipe_comma_pipe(tts: &[Tt]) -> bool {
                 if state == 0 { state = 1; }
             } else if t.ch == b',' && state == 1 {
                 state = 2;
+            }
+        }
+        i += 1;
+    }
+    false
+}
+
+/// is there a `<` punct, later a `,`, later a `>` punct directly followed by `::`?
+fn lt_comma_gt_pathsep(tts: &[Tt]) -> bool {
+    let mut state = 0u8;
+    let mut i = 0;
+    while i < tts.len() {
+        let t = &tts[i];
+        if t.kind == K_PUNCT {
+            if t.ch == b'<' && state == 0 {
+                state = 1;
+            } else if t.ch == b',' && state == 1 {
+                state = 2;
+            } else if t.ch == b'>' && state == 2 && i + 2 < tts.len() + 0 && tts[i + 1].kind == K_PUNCT && tts[i + 1].ch == b':' && tts[i + 1].joint
+                && tts[i + 2].kind == K_PUNCT && tts[i + 2].ch == b':' {
+                return true;
             }
         }
         i += 1;
